@@ -55,12 +55,34 @@ Definition one_pass (cands : list ucand) (r : req) (allow_pre : bool) (budget : 
   | _ => scan r budget [] (sort_candidates (filter (usable r (has_equality r) allow_pre) cands))
   end.
 
+(* did the scan stop because max_downgrade distinct versions had been tried (the `gave_up` flag of
+   do_get_candidate, /repo fix "do not fall back to pre-releases after the downgrade budget is used up")? *)
+Fixpoint scan_gave_up (r : req) (budget : option nat) (tried : list version) (cs : list ucand) : bool :=
+  match cs with
+  | [] => false
+  | c :: cs' =>
+      if creadable c && String.eqb (norm (cname c)) (norm (safe_name (rname r))) then false
+      else
+        let v := cand_version c in
+        let tried' := if existsb (veqb v) tried then tried else v :: tried in
+        match budget with
+        | Some b => if b <=? List.length tried' then true else scan_gave_up r budget tried' cs'
+        | None => scan_gave_up r budget tried' cs'
+        end
+  end.
+Definition one_pass_gave_up (cands : list ucand) (r : req) (allow_pre : bool) (budget : option nat) : bool :=
+  match cands with
+  | [] => false
+  | _ => scan_gave_up r budget [] (sort_candidates (filter (usable r (has_equality r) allow_pre) cands))
+  end.
+
 Definition get_dist (u : universe) (repo_allow_pre : bool) (r : req) (budget : option nat) : option dist :=
   let cands := match slookup (norm (safe_name (rname r))) u with Some l => l | None => [] end in
   match one_pass cands r repo_allow_pre budget with
   | Some d => Some d
   | None =>
       if (forallb (fun c => is_prerelease (cand_version c)) cands || req_has_prerelease r) && negb repo_allow_pre
+         && negb (one_pass_gave_up cands r repo_allow_pre budget)
       then one_pass cands r true budget
       else None
   end.
@@ -90,6 +112,26 @@ Definition one_pass_src (allow_source : bool) (cands : list ucand) (r : req) (al
   | _ => scan_src allow_source r budget [] (sort_candidates (filter (usable r (has_equality r) allow_pre) cands))
   end.
 
+Fixpoint scan_src_gave_up (allow_source : bool) (r : req) (budget : option nat) (tried : list version) (cs : list ucand) : bool :=
+  match cs with
+  | [] => false
+  | c :: cs' =>
+      if csdist c && negb allow_source then scan_src_gave_up allow_source r budget tried cs'
+      else if creadable c && String.eqb (norm (cname c)) (norm (safe_name (rname r))) then false
+      else
+        let v := cand_version c in
+        let tried' := if existsb (veqb v) tried then tried else v :: tried in
+        match budget with
+        | Some b => if b <=? List.length tried' then true else scan_src_gave_up allow_source r budget tried' cs'
+        | None => scan_src_gave_up allow_source r budget tried' cs'
+        end
+  end.
+Definition one_pass_src_gave_up (allow_source : bool) (cands : list ucand) (r : req) (allow_pre : bool) (budget : option nat) : bool :=
+  match cands with
+  | [] => false
+  | _ => scan_src_gave_up allow_source r budget [] (sort_candidates (filter (usable r (has_equality r) allow_pre) cands))
+  end.
+
 Definition get_dist_src (allow_source : bool) (u : universe) (repo_allow_pre : bool) (r : req) (budget : option nat)
   : option dist :=
   let cands := match slookup (norm (safe_name (rname r))) u with Some l => l | None => [] end in
@@ -97,6 +139,7 @@ Definition get_dist_src (allow_source : bool) (u : universe) (repo_allow_pre : b
   | Some d => Some d
   | None =>
       if (forallb (fun c => is_prerelease (cand_version c)) cands || req_has_prerelease r) && negb repo_allow_pre
+         && negb (one_pass_src_gave_up allow_source cands r repo_allow_pre budget)
       then one_pass_src allow_source cands r true budget
       else None
   end.
